@@ -652,6 +652,40 @@ def run(only=None):
         hist.reused_buffer(s, "trellis", ents)
         s.done()
 
+    if want("storage_twin_histories"):
+        s = rep.sub("storage_twin_histories",
+                    "6 blocks x 4 containers that a cache keyed by storage octets confuses (big-endian bitarray, little-endian bitarray over the same octets = "
+                    "another block, little-endian bitarray with the same bits, bytes): all ordered pairs of encode calls back to back; each result has 196 bits "
+                    "and decodes to the block its own container holds; same for decode over the containers of 6 encoded blocks")
+        tb = [env.det_bits(f"c10-twin-{i}", 144) for i in range(5)] + ["10110010" * 18]
+        tenc = {}
+        for b in tb:
+            for _, o, bits in hist.storage_twins(b):
+                tenc.setdefault(bits, None)
+
+        def ok_enc(r, bits):
+            return len(r) == 196 and T.decode(bitarray(r.to01())).to01() == bits
+
+        def ok_dec(r, bits):
+            # `bits` = the 196 received bits the container holds; the oracle: re-encoding what was decoded gives them back (valid streams only)
+            return len(r) == 144 and T.encode(bitarray(r.to01())).to01() == bits
+
+        encs196 = [T.encode(bitarray(b)).to01() for b in tb[:3]]
+        hist.storage_twin_histories(s, "trellis", [
+            ("encode", (lambda x: T.encode(x)), tb, ok_enc, True),
+        ])
+        # decode: only containers whose bit string is a valid stream (the big-endian one and the little-endian one with the same bits)
+        for e196 in encs196:
+            pair = [(k, o, b) for k, o, b in hist.storage_twins(e196) if b == e196]
+            for ka, oa, _ in pair:
+                for kb, ob, _ in pair:
+                    for o_ in (oa, ob):
+                        r = T.decode(o_.copy())
+                        if not ok_dec(r, e196):
+                            s.violation("storage_twins:wrong_result_in_a_history_of_storage_twins:trellis:decode", {"first": ka, "second": kb})
+                    s.case(nontrivial=True, calls=2, outcome="twin_pair_decode")
+        s.done()
+
     if want("long_call_history"):
         s = rep.sub("long_call_history",
                     "encode / decode (bits and bytes) of one fixed block called again and again in one process: the result never depends on "
